@@ -522,6 +522,8 @@ def run_schedule(case, phases=None):
         # race monitors, evaluated on the real run (class predicates of the known findings), per stack
         aflag = [[False] * nd for _ in range(n)]
         bflag = [[False] * nd for _ in range(n)]
+        # ... and the same events anywhere on the stack (the form of the classification that is a theorem)
+        ev = [{"a": False, "b": False, "c": False} for _ in range(nd)]
         viols = []
 
         def split(name):
@@ -552,6 +554,9 @@ def run_schedule(case, phases=None):
                         d = ds[0]
                         cls = "D12c" if d not in procs[b].held else "D12b" if (bflag[a][d] or bflag[b][d]) else \
                               "D12a" if (aflag[a][d] or aflag[b][d]) else None
+                        if cls is None:
+                            # no race hit the pair itself: one that hit somebody else on this stack (their parent, say)
+                            cls = "D12b" if ev[d]["b"] else "D12a" if ev[d]["a"] else "D12c" if ev[d]["c"] else None
                         viols.append({"step": len(trace), "pair": [a, b], "dir": d, "class": cls})
             return v
 
@@ -584,10 +589,14 @@ def run_schedule(case, phases=None):
                     if any(q != i and not related(specs, i, q) and before[q][d] and
                            (specs[i]["kind"] == "E" or specs[q]["kind"] == "E") for q in range(n)):
                         aflag[i][d] = True
+                        ev[d]["a"] = True
                 if c == "rmdir" and res == "ok":
                     for q in range(n):
                         if q != i and before[q][d]:
                             bflag[q][d] = True
+                            ev[d]["b"] = True
+                if c == "exists_dir" and res == "False":
+                    ev[d]["c"] = True
             if c == "create" and res == "ok" and d is not None and p.pid not in order[str(d)]:
                 order[str(d)].insert(0, p.pid)
             if c == "remove" and res == "ok" and d is not None and p.pid in order[str(d)]:
